@@ -34,6 +34,8 @@ pub struct Machine<T: CellT> {
     pub forgiven: HashSet<u64>,
     /// a fault is armed for the current call (the harness then makes no extra calls into element code)
     pub in_fault: bool,
+    /// refuse the k-th allocation request of the next call (memory exhaustion overlay)
+    pub afail: Option<u32>,
 }
 
 /// Everything the harness reads off a real owned array.
@@ -99,10 +101,12 @@ pub fn observe<T: CellT>(t: &TooDee<T>) -> Obs {
                 None => o.garbage += 1,
             }
             o.serials.push(e.serial());
+        } else if T::HAS_SERIAL {
+            o.serials.push(e.serial());
         }
         o.data.push(e.origin());
     }
-    if T::TRACKED {
+    if T::HAS_SERIAL {
         let mut s = o.serials.clone();
         s.sort_unstable();
         let before = s.len();
@@ -159,7 +163,7 @@ fn res_none() -> Value {
 
 impl<T: CellT + std::hash::Hash> Machine<T> {
     pub fn new(capmode: u8) -> Machine<T> {
-        Machine { handle: Handle::None, arr: None, held: Vec::new(), capmode, forgiven: HashSet::new(), in_fault: false }
+        Machine { handle: Handle::None, arr: None, held: Vec::new(), capmode, forgiven: HashSet::new(), in_fault: false, afail: None }
     }
 
     fn tight(&mut self) {
@@ -188,7 +192,15 @@ impl<T: CellT + std::hash::Hash> Machine<T> {
         let supplied_serials: Vec<u64> = supplied.iter().map(|e| e.serial()).collect();
         let value: Option<T> = a.get("v").map(|v| T::make(v.as_u64().unwrap() as u32));
         let value_serial = value.as_ref().map(|e| e.serial());
+        // memory exhaustion overlay: the k-th allocation request made during this call is refused.  The process
+        // either dies (Rust's default for infallible allocation: the driver forgives exactly that) or the call
+        // must mean what it always means
+        if let Some(k) = self.afail.take() {
+            println!("A {k}");
+            canary::arm_fail(k);
+        }
         let r = guarded(|| self.call_inner(op, a, conc, supplied, value, mode));
+        canary::disarm_fail();
         match r {
             Ok(v) => v,
             Err(()) => {
@@ -612,12 +624,22 @@ fn res_matches<T: CellT>(exp: &Value, got: &Value) -> bool {
     exp.get("v") == got.get("v")
 }
 
+/// Cells of the array whose element is also in the caller's hands (taken from a drain): one element, two owners.
+pub fn held_dup<T: CellT + std::hash::Hash>(m: &Machine<T>, o: &Obs) -> usize {
+    if !T::HAS_SERIAL || m.held.is_empty() {
+        return 0;
+    }
+    let h: HashSet<u64> = m.held.iter().map(|e| e.serial()).collect();
+    o.serials.iter().filter(|s| h.contains(s)).count()
+}
+
 /// One trace event: what the real code showed after one public call (Appendix A of DESIGN.md).
 pub fn event<T: CellT + std::hash::Hash>(m: &Machine<T>, op: &str, a: &Value, res: &Value, fault: Option<&Value>, fired: bool,
                                      pre: &[u32], supplied: &[u32]) -> Value {
     let observable = m.arr.is_some() && m.handle.is_none();
     let post = if observable {
-        let o = observe::<T>(m.arr.as_ref().unwrap());
+        let mut o = observe::<T>(m.arr.as_ref().unwrap());
+        o.dup += held_dup(m, &o);
         json!({"obs": true, "nc": o.nc.min(i32::MAX as usize) as u64, "nr": o.nr.min(i32::MAX as usize) as u64, "len": o.len.min(i32::MAX as usize) as u64,
                "data": if T::HAS_VALUE { o.data.clone() } else { vec![0u32; o.len.min(64)] },
                "dup": o.dup, "dead": o.dead + o.garbage,
@@ -666,6 +688,7 @@ pub fn run_case<T: CellT + std::hash::Hash>(steps: &[Value], capmode: u8, log: &
         let a = &st["a"];
         let x = &st["x"];
         let idx = index_args(op, a);
+        m.afail = st.get("afail").and_then(|v| v.as_u64()).map(|k| k as u32);
         // current shape (for wrap-adversarial instantiation and unchanged-state checks)
         let pre = if m.handle.is_none() { m.arr.as_ref().map(|t| observe::<T>(t)) } else { None };
         let (nc, nr, len) = pre.as_ref().map(|o| (o.nc, o.nr, o.len)).unwrap_or((0, 0, 0));
@@ -845,10 +868,13 @@ fn check_state<T: CellT + std::hash::Hash>(m: &Machine<T>, si: usize, op: &str, 
     if o.nc != enc || o.nr != enr || !data_ok {
         fails.push(Fail::new(si, "proj", json!({"op": op, "expected": {"nc": enc, "nr": enr, "data": edata}, "observed": o.to_json()})));
     }
-    if T::TRACKED {
-        if o.dup > 0 || o.dead > 0 || o.garbage > 0 {
-            fails.push(Fail::new(si, "ledger.cells", json!({"op": op, "dup": o.dup, "dead": o.dead, "garbage": o.garbage})));
+    if T::HAS_SERIAL {
+        let hd = held_dup(m, &o);
+        if o.dup > 0 || hd > 0 || o.dead > 0 || o.garbage > 0 {
+            fails.push(Fail::new(si, "ledger.cells", json!({"op": op, "dup": o.dup + hd, "dead": o.dead, "garbage": o.garbage})));
         }
+    }
+    if T::TRACKED {
         // conservation: live = in the array + with the caller (+ forgiven supplied items of panicked calls)
         let mut reach: HashSet<u64> = o.serials.iter().copied().collect();
         reach.extend(m.held.iter().map(|e| e.serial()));
